@@ -236,6 +236,18 @@ class StubSim(mosaik_api_v3.Simulator):
                 self.ctx.ev("AR", self.sid, k, "set", type(e).__name__, _exc_name(e))
                 if not act_tolerant(self.spec):
                     raise
+        elif op == "set2":
+            # ONE set_data call addressing several destinations (in this order)
+            _, dsts, attr = act
+            val = f"{self.sid}{k}s"
+            self.ctx.ev("AS2", self.sid, k, time, json.dumps(list(dsts)), attr, val)
+            try:
+                yield self.mosaik.set_data({f"{self.sid}.e": {d: {attr: val} for d in dsts}})
+                self.ctx.ev("AR", self.sid, k, "set", "ok")
+            except Exception as e:  # noqa: BLE001
+                self.ctx.ev("AR", self.sid, k, "set", type(e).__name__, _exc_name(e))
+                if not act_tolerant(self.spec):
+                    raise
         elif op == "get":
             _, src_full, attr = act
             self.ctx.ev("AG", self.sid, k, time, src_full, attr)
